@@ -56,6 +56,12 @@ func pipeOpts(mode string) gen.Opts {
 		o := pipeOpts("text")
 		o.Comments, o.NumberLabels, o.Boundary, o.EdgeLinks = true, true, true, true
 		return o
+	case "text3-mut":
+		return pipeOpts("text3")
+	case "text3": // text2 with tables and classes, connection references in every form, blank lines in block strings, empty boards
+		o := pipeOpts("text2")
+		o.Tables, o.EdgeKeys, o.BlockBlank, o.EmptyBoards = true, true, true, true
+		return o
 	case "render2": // render with boundary style values on shapes and connections, links on connections, 3d/multiple with outside labels
 		o := pipeOpts("render")
 		o.Boundary, o.EdgeLinks, o.Label3D, o.LabelPos = true, true, true, true
@@ -408,7 +414,10 @@ func pipeRun(in pipeInput, stages map[string]bool) (evs []tr.M, nt []string) {
 		feats = append(feats, d.Feats...)
 	}
 	if in.Mode == "text2-mut" && in.Text == "" {
-		text = valueShapeAt(in.Seed)
+		text = valueShapeAt(in.Seed, vsKeys)
+		feats = append(feats, "value-shape")
+	} else if in.Mode == "text3-mut" && in.Text == "" && in.Seed%2 == 0 {
+		text = valueShapeAt(in.Seed/2, vsKeys3)
 		feats = append(feats, "value-shape")
 	} else if strings.HasSuffix(in.Mode, "-mut") && in.Text == "" {
 		r := rand.New(rand.NewSource(in.Seed*31 + 7))
@@ -450,7 +459,24 @@ func pipeRun(in pipeInput, stages map[string]bool) (evs []tr.M, nt []string) {
 	if len(text) > 20 {
 		ntset["C07"] = true
 	}
-	if stages["determinism"] && cerr == nil {
+	// ---- well-formedness of every compiled board (C09), read from the graph itself, not from the projection
+	if stages["wf"] && cerr == nil {
+		we := tr.M{"ev": "wf", "boards": wfOf(g0)}
+		evs = append(evs, we)
+		for _, b := range we["boards"].([]tr.M) {
+			if len(b["objs"].([]tr.M)) >= 2 {
+				ntset["C09"] = true
+			}
+		}
+	}
+	if stages["determinism"] {
+		// the same diagram, or the same errors (their text, in order)
+		digestOf := func(g *d2graph.Graph, err error) string {
+			if err != nil {
+				return "ERR:" + firstN(err.Error(), 600)
+			}
+			return proj.Digest(proj.Boards(g))
+		}
 		digs := []string{}
 		var mu sync.Mutex
 		var wg sync.WaitGroup
@@ -458,27 +484,23 @@ func pipeRun(in pipeInput, stages map[string]bool) (evs []tr.M, nt []string) {
 			wg.Add(1)
 			go func() {
 				defer wg.Done()
-				defer func() { recover() }()
+				dg := "PANIC"
+				defer func() {
+					recover()
+					mu.Lock()
+					digs = append(digs, dg)
+					mu.Unlock()
+				}()
 				g, _, err := d2compiler.Compile("in.d2", strings.NewReader(text), nil)
-				dg := "ERR"
-				if err == nil {
-					dg = proj.Digest(proj.Boards(g))
-				}
-				mu.Lock()
-				digs = append(digs, dg)
-				mu.Unlock()
+				dg = digestOf(g, err)
 			}()
 		}
 		wg.Wait()
 		for k := 0; k < 2; k++ {
 			g, _, err := d2compiler.Compile("in.d2", strings.NewReader(text), nil)
-			if err == nil {
-				digs = append(digs, proj.Digest(proj.Boards(g)))
-			} else {
-				digs = append(digs, "ERR")
-			}
+			digs = append(digs, digestOf(g, err))
 		}
-		evs = append(evs, tr.M{"ev": "recompile", "digests": digs, "first": ce["digest"]})
+		evs = append(evs, tr.M{"ev": "recompile", "digests": digs, "first": digestOf(g0, cerr), "isErr": tr.B(cerr != nil)})
 		ntset["C08"] = true
 	}
 
@@ -736,13 +758,18 @@ var vsShapes = []string{"x", "1", "true", "null", "{a: b}", "{a: {b: c}}", "[1; 
 	"layers", "scenarios", "steps", "layers.x", "layers.x.scenarios", "_.layers", "_", "_._", "root.layers.x", "layers.x.y.z", "steps.1.steps", "style", "classes.x", "vars.x", "a -> b", "(a -> b)[0]"}
 var vsKeys = []string{"shape", "label", "style", "style.fill", "style.opacity", "style.3d", "icon", "link", "tooltip", "near", "width", "height", "top", "left", "direction",
 	"grid-rows", "grid-columns", "grid-gap", "class", "classes", "vars", "constraint", "source-arrowhead", "target-arrowhead", "label.near", "icon.near", "layers", "scenarios", "steps"}
+
+// the keys of mode text3-mut: every style keyword and the remaining reserved keywords that take a value
+var vsKeys3 = []string{"style.font", "style.stroke", "style.fill-pattern", "style.stroke-width", "style.stroke-dash", "style.border-radius", "style.font-size", "style.font-color",
+	"style.animated", "style.bold", "style.italic", "style.underline", "style.text-transform", "style.shadow", "style.multiple", "style.double-border", "style.filled",
+	"horizontal-gap", "vertical-gap", "source-arrowhead.shape", "target-arrowhead.label", "target-arrowhead.style.filled", "label.near", "tooltip.near", "style.opacity.x", "shape.near", "level", "d2-config"}
 var vsCfg = []string{"theme-id", "dark-theme-id", "pad", "sketch", "center", "layout-engine", "theme-overrides", "dark-theme-overrides", "data", "theme-overrides.N1", "theme-overrides.B1", "dark-theme-overrides.AA2", "unknown-key"}
 
 // valueShapeAt is the systematic counterpart of valueShapes: program #seed holds exactly one declaration of a
 // reserved keyword or configuration key (one, because any error ends compilation before the later passes),
 // in one of four places, followed by a fixed valid tail with boards; all key x value x place combinations are
 // spread over the seeds by a multiplicative permutation.
-func valueShapeAt(seed int64) string {
+func valueShapeAt(seed int64, vsKeys []string) string {
 	nk, nv, nc := len(vsKeys), len(vsShapes), len(vsCfg)
 	total := nk*nv*4 + nc*nv
 	i := int((uint64(seed) * 2654435761) % uint64(total))
@@ -858,7 +885,6 @@ func boardFeats(m *d2ast.Map) []string {
 	return out
 }
 
-
 // eofFeats: a program whose last line has no final newline, and what that line is (the whole file, or the end of an array).
 func eofFeats(text string, m *d2ast.Map) []string {
 	if strings.HasSuffix(text, "\n") || text == "" {
@@ -871,5 +897,70 @@ func eofFeats(text string, m *d2ast.Map) []string {
 	if strings.HasSuffix(strings.TrimRight(text, " \t"), "]") {
 		out = append(out, "array-then-eof")
 	}
+	return out
+}
+
+// wfOf lists, for every board, what the graph's own structures say: the object list, each object's parent pointer and
+// child list, how its parent's child map files it, and whether the ends of each connection are in the object list.
+func wfOf(g *d2graph.Graph) []tr.M {
+	var out []tr.M
+	var walk func(g *d2graph.Graph, path string)
+	walk = func(g *d2graph.Graph, path string) {
+		listed := map[*d2graph.Object]int{}
+		for _, o := range g.Objects {
+			listed[o]++
+		}
+		kidsOf := func(o *d2graph.Object) []string {
+			ks := []string{}
+			for _, c := range o.ChildrenArray {
+				ks = append(ks, c.AbsID())
+			}
+			return ks
+		}
+		objs := []tr.M{}
+		for _, o := range g.Objects {
+			m := tr.M{"id": o.AbsID(), "parent": "", "parentIsRoot": 0, "kids": kidsOf(o), "mapKids": len(o.Children), "filed": 0, "reachesRoot": 0, "sameGraph": tr.B(o.Graph == g)}
+			if o.Parent != nil {
+				m["parentIsRoot"] = tr.B(o.Parent == g.Root)
+				if o.Parent != g.Root {
+					m["parent"] = o.Parent.AbsID()
+				}
+				if o.Parent.Children != nil && o.Parent.Children[strings.ToLower(o.ID)] == o {
+					m["filed"] = 1
+				}
+			}
+			p := o
+			for k := 0; k <= len(g.Objects)+1 && p != nil; k++ {
+				if p == g.Root {
+					m["reachesRoot"] = 1
+					break
+				}
+				p = p.Parent
+			}
+			objs = append(objs, m)
+		}
+		edges := []tr.M{}
+		for _, e := range g.Edges {
+			m := tr.M{"src": "", "dst": "", "srcListed": 0, "dstListed": 0}
+			if e.Src != nil {
+				m["src"], m["srcListed"] = e.Src.AbsID(), tr.B(listed[e.Src] > 0)
+			}
+			if e.Dst != nil {
+				m["dst"], m["dstListed"] = e.Dst.AbsID(), tr.B(listed[e.Dst] > 0)
+			}
+			edges = append(edges, m)
+		}
+		out = append(out, tr.M{"path": path, "objs": objs, "rootKids": kidsOf(g.Root), "rootMapKids": len(g.Root.Children), "edges": edges})
+		for _, b := range g.Layers {
+			walk(b, path+"/layers."+b.Name)
+		}
+		for _, b := range g.Scenarios {
+			walk(b, path+"/scenarios."+b.Name)
+		}
+		for _, b := range g.Steps {
+			walk(b, path+"/steps."+b.Name)
+		}
+	}
+	walk(g, "root")
 	return out
 }
